@@ -467,6 +467,11 @@ def serial_cases(ctx, inv, small=False):
             hm.append(dict(_cc(grp, LEAF(n1), _R("All", LEAF(n2), LEAF(n3), id="BC")), d=n1))
             hm.append(_cc("Cfg", dict(_cc(grp, LEAF(n1), _R("All", LEAF(n2), LEAF(n3), id="BC"), id="X"), d=n1), id="cfg"))
             hm.append(_cc("Cfg", dict(_cc(grp, LEAF(n1), _R("Any", LEAF(n2), LEAF(n3))), d=n1), _R("Imply", LEAF(n4), _R("Any", LEAF(n2), LEAF(n3)))))
+    # defaulted groups whose default item sorts before the generated ids (upper case, digits)
+    for grp in ("ccAny", "ccXor"):
+        for ids_, dflt in ((("A", "B", "c"), "A"), (("Q", "b", "c"), "Q"), (("1x", "b", "c"), "1x"), (("a", "B", "c"), "B")):
+            g_ = dict(_cc(grp, *[LEAF(i) for i in ids_]), d=dflt)
+            hm += [g_, dict(g_, id="X"), _cc("Cfg", dict(g_, id="X"), id="cfg"), _cc("Cfg", g_, _R("Any", LEAF("x"), LEAF("y")))]
     # implications whose consequence id sorts before the condition id (upper case / digit ids against generated VAR.. ids, D before C)
     for cons in (LEAF("C"), LEAF("A"), LEAF("7up"), _R("All", a, c, id="C"), dict(_cc("ccXor", LEAF("B"), LEAF("A2"), id="C0"), d="B")):
         for cond in (_R("Any", a, b), _R("Any", a, b, id="D"), _R("All", a, _R("Any", b, c)), LEAF("z")):
@@ -507,6 +512,11 @@ def run_c17(ctx):
         cases.append({"recipe": _cc("Cfg", _R("AtLeast", l1, l2, LEAF("b"), id="R", v=3 + k, s=1), dict(_cc("ccAny", LEAF("a"), LEAF("b"), LEAF("c"), id="X"), d="a"), id="cfg"),
                       "src": "handmade", "wide": True})
     ctx.pmap(drivers.drv_b64, _stamp(cases, "drv_b64"))
+    # unpacking in another interpreter (different hash seed)
+    pool = [c["recipe"] for c in cases if c.get("src") == "handmade" and not c.get("wide")] + [c["recipe"] for c in cases if c.get("src") == "random"][:150 if ctx.tier == "quick" else 1500]
+    xp = [{"recipes": pool[i:i + 40], "other_seed": 1 + (i // 40) % 3} for i in range(0, len(pool), 40)]
+    ctx.pmap(drivers.drv_b64_xproc, _stamp(xp, "drv_b64_xproc"))
+    ctx.region("unpacked_in_another_interpreter", len(pool))
     # the caller goes on with the unpacked object: TLC enumerates call histories of the API machine in which handles are re-bound to
     # what from_b64(to_b64(.)) returned; every later answer is the answer of a freshly built model (run_histories validates all events)
     cat = api_catalog()
@@ -645,6 +655,12 @@ def run_c12(ctx):
         rows = [[rng.randint(-50, 50)] + [rng.choice([-2, -1, 0, 1, 1, 3]) for _ in range(nc)] for _ in range(rng.randint(1, 3))]
         cases.append({"rows": rows, "bounds": bounds, "src": "random", "k": k, "bounds_dtype": bd, "ids": ["w%d" % j for j in range(nc)]})
         ctx.region("narrow_bounds_table")
+    # columns declared with the library's default integer range (-32768..32767) or starting exactly at its minimum
+    for k_, (lo, hi) in enumerate(((-32768, 32767), (-32768, 5), (-32768, -32760), (-32767, 3), (0, 32767))):
+        for rows_ in ([[0, 1]], [[-32768, -1]], [[5, 1]], [[32768, -1]], [[-3, 1], [1, -1]]):
+            cases.append({"rows": rows_, "bounds": [[lo, hi]], "src": "family", "k": k_})
+            cases.append({"rows": [r + [1] for r in rows_], "bounds": [[lo, hi], [0, 1]], "src": "family", "k": k_})
+    ctx.region("default_integer_range")
     # every coefficient magnitude up to 200 (both signs) with right-hand sides that divide exactly or miss by one: the rounding of the
     # tightening must be exact integer arithmetic (a reciprocal in floating point is off by one for 49, 98, 103, 107, ...)
     kk = 0
@@ -822,6 +838,12 @@ def cfg_cases(ctx, inv, quick_prios=3):
     for lo, hi in ((1, 3), (-2, 1), (2, 2)):
         rr = _cc("Cfg", _R("AtLeast", LEAF("n", lo, hi), LEAF("b"), id="R", v=2, s=1), _cc("ccAny", LEAF("a"), LEAF("b"), LEAF("c"), d="a", id="X"), id="cfg")
         cases.append({"recipe": rr, "src": "handmade", "prios_list": [[{}], [{"b": 1}], [{"c": 2, "n": 1}, {"a": -1}], [{"X": 1}]]})
+    # the default named twice among the options; defaults that sort before generated ids
+    for grp in ("ccAny", "ccXor"):
+        rr = _cc("Cfg", dict(_cc(grp, LEAF("a"), LEAF("b"), LEAF("c"), LEAF("c"), id="X"), d="c"), _R("Any", LEAF("x"), LEAF("y"), id="J"), id="cfg")
+        cases.append({"recipe": rr, "src": "handmade", "prios_list": [[{}], [{"x": 1}], [{"a": 1}, {"c": -1}]]})
+        rr = _cc("Cfg", dict(_cc(grp, LEAF("A"), LEAF("B"), LEAF("c"), id="X"), d="A"), dict(_cc(grp, LEAF("Q"), LEAF("r"), LEAF("s")), d="Q"), id="cfg")
+        cases.append({"recipe": rr, "src": "handmade", "prios_list": [[{}], [{"c": 1}], [{"B": 1}, {"Q": -1}]]})
     # several defaults, the first of them not the alphabetically smallest
     for grp in ("ccAny", "ccXor"):
         for d1, d2_ in (("c", "a"), ("b", "a"), ("c", "b")):
@@ -1115,6 +1137,7 @@ def run_c18(ctx):
     rules += [_R("Xor", LEAF("p"), LEAF("q"), id="P1"), _R("All", LEAF("p"), LEAF("q"), id="P1")]      # alternative variants of the rule named P1
     rules += [_R("AtMost", LEAF("p"), LEAF("q"), v=2, id="T1"), _R("AtLeast", LEAF("p"), LEAF("r"), v=0, s=1, id="T2"),   # rules that always hold
               _R("AtMost", LEAF("a"), LEAF("b"), v=3)]
+    rules += [LEAF("p"), LEAF("c"), LEAF("X")]            # bare items as "rules": a new one, one that is a top-level item already, one named like a rule
     states = api_histories(ctx, "API_add", pairs, ["add", "cfg_poly", "select"], 3, rules)
     cases = history_cases(ctx, states, [cat["CfgD"], cat["CfgG"], CfgN, CfgI, CfgA])
     cases = [c for c in cases if any(x["op"] == "add" for x in c["calls"])]
